@@ -197,6 +197,28 @@ theorem sign_then_read_exchange (H : Hmac) (strict : Bool) (key : Key) (rm : Byt
       ∧ rs.map (fun r => r.tsig.isSome) = envs.map SEnv.isSigned :=
   sign_then_read_exchange_core H strict key rm envs none hall
 
+/-- the code as it is now (repair 1f3fc58): an **unsigned envelope followed by octets that are not part of it**, read
+with `multi=True`, `ignore_trailing=True` and a running context, is digested into that context as *the message
+only* — the next context is the old one plus exactly the message octets, whatever trails them — so the MAC input
+of the next signed envelope is RFC 8945 §5.3.1's ("any unsigned messages since the last TSIG"), not the buffer's. -/
+theorem unsigned_envelope_digests_message_only (V : Verifier) (tbl : List AlgEntry) (strict : Bool) (body junk : Bytes)
+    (kr : Keyring) (now : Nat) (rm : Bytes) (c : Ctx) (hb : BodyOk body) :
+    readVI true V tbl strict (body ++ junk) kr now rm (some c) true = .ok ⟨none, some (c.update body)⟩ := by
+  rw [readVI_unsigned_junk V tbl strict body junk kr now rm (some c) true hb]
+  simp
+
+/-- **a whole exchange, every envelope possibly followed by trailing octets**, read with `ignore_trailing=True`:
+the statement of `sign_then_read_exchange` holds unchanged — every envelope is accepted, a TSIG is reported exactly
+for the signed ones — for any pattern of signed / unsigned envelopes and any list `junks` of trailing octet
+strings (one per envelope, empty or not). -/
+theorem sign_then_read_exchange_trailing (H : Hmac) (strict : Bool) (key : Key) (rm : Bytes) (envs : List SEnv)
+    (junks : List Bytes) (hj : junks.length = envs.length) (hall : ∀ e ∈ envs, SEnv.Ok H key e) :
+    ∃ ws rs, signExchange H key rm none envs = .ok ws
+      ∧ readExchangeJ H strict key rm none (ws.zip (junks.zip (envs.map SEnv.vnow))) = .ok rs
+      ∧ ws.length = envs.length
+      ∧ rs.map (fun r => r.tsig.isSome) = envs.map SEnv.isSigned :=
+  sign_then_read_exchange_junk_core H strict key rm envs none junks hj hall
+
 /-- the reader's name decoding is C01's: the fuel-driven `nameAt` used so that the kernel can evaluate the reader
 is `Model.fromWireAux` (`nameFuel` always suffices), hence a decoded TSIG owner is a `Dec` derivation with strictly
 backward pointers and a well-formed name (`Proofs/NameWire.lean`), and conversely. -/
@@ -736,6 +758,16 @@ example :
   refine ⟨by decide, [[97]], 15, ?_, rfl⟩
   have hroot : Dec pre 14 12 [] 15 := Dec.root 14 12 (by decide)
   exact Dec.label 12 12 1 [] 15 (by decide) (by decide) (by decide) (by decide) hroot
+
+/-- `unsigned_envelope_digests_message_only` on a concrete buffer: the example body followed by three octets, read
+with a running context holding `[7]`, leaves the context `[7] ++ body`; read strictly the same buffer is TrailingJunk -/
+example :
+    (match readVI true (fun _ _ => true) algTable true (exBody ++ [1, 2, 3]) (.key exKey) 0 [] (some ⟨[], 4, 0, [7]⟩) true with
+      | .ok r => r.ctx.map (·.data)
+      | .error _ => none) = some (7 :: exBody)
+    ∧ errOf (readV (fun _ _ => true) algTable true (exBody ++ [1, 2, 3]) (.key exKey) 0 [] (some ⟨[], 4, 0, [7]⟩) true)
+        = some .trailingJunk := by
+  decide +kernel
 
 /-- two request MACs of different length and of equal length (hypothesis of `request_mac_binding`) -/
 example : ([] : Bytes) ≠ [0] ∧ ([1, 2] : Bytes) ≠ [1, 3] := by decide
